@@ -102,7 +102,7 @@ func TypeString(c typeCtx, t *Type) string {
 			for _, a := range t.Args {
 				as = append(as, TypeString(c, a))
 			}
-			out += "[" + strings.Join(as, ",") + "]"
+			out += "[" + strings.Join(as, ", ") + "]"
 		}
 		return out
 	case "ptr":
